@@ -55,6 +55,9 @@ POOL = [
     '@charset "utf-8";',
     '.v1, .v2{bottom:0}',
     '.sel-@{lim}{top:1px}',
+    '.tr{transition:all 1s}',
+    '.sp{speak:all; color:@c}',
+    '.btn-@{lim}{color:@c; width:@w}',
 ]
 FOREIGN = ['@import "x.css";', '@import url("y.css");', '@import "z.css" screen;', '@import url("w.css") print, screen;', "@import 'v.css';",
            '@import "http://example.com/a.css";', '@import "theme.less?v=2";', '@import "p.php";']
@@ -96,12 +99,19 @@ def build_tree(rng, units, counter, path, depth):
                 child_path = 'f%d.less' % counter[0]
             child = build_tree(rng, units[i:i + n], counter, child_path, depth + 1)
             node.items.append(('import', child))
-            if rng.random() < 0.08:
-                node.items.append(('import', child))        # the same file a second time
+            if rng.random() < 0.15:
+                node.reimport = child                       # the same file a second time, further down (see below)
             i += n
         else:
             node.items.append(('unit', units[i]))
             i += 1
+    if getattr(node, 'reimport', None) is not None:
+        k = max(j for j, it in enumerate(node.items) if it[0] == 'import' and it[1] is node.reimport)
+        node.items.insert(rng.randrange(k + 1, len(node.items) + 1), ('import', node.reimport))
+    if rng.random() < 0.25:
+        st = rng.choice(FOREIGN)
+        m = re.search(r'["\'(]([^"\'()]+)["\')]', st)
+        node.items.insert(rng.randrange(len(node.items) + 1), ('foreign', st, m.group(1)))
     return node
 
 
@@ -148,12 +158,7 @@ def rand_case(rng, idx):
     counter = [0]
     root = build_tree(rng, units, counter, 'main.less', 0)
     kind = 'plain'
-    # sprinkle non-LESS imports, a block-level import, a missing file
-    if rng.random() < 0.4:
-        st = rng.choice(FOREIGN)
-        m = re.search(r'["\'(]([^"\'()]+)["\')]', st)
-        root.items.insert(rng.randrange(len(root.items) + 1), ('foreign', st, m.group(1)))
-        kind = 'foreign'
+    # a block-level import, a missing file (non-LESS imports are sprinkled by build_tree)
     if rng.random() < 0.25:
         counter[0] += 1
         child = Node(rng.choice(['blk%d.less', 'sub/blk%d.less']) % counter[0])
@@ -168,6 +173,8 @@ def rand_case(rng, idx):
     root.items.insert(0, ('unit', DEFAULTS.strip()))
     files, inlined, model_files = {}, {}, {}
     pasted = render_tree(rng, root, files, inlined, model_files)
+    if kind == 'plain' and any(st in t for t in files.values() for st in FOREIGN):
+        kind = 'foreign'
     return {'files': files, 'pasted': pasted + '\n', 'model_files': model_files, 'kind': kind, 'missing': missing,
             'nfiles': len(files), 'depth': max(p.count('/') for p in files)}
 
@@ -261,7 +268,7 @@ def run(tier):
         if split[0] == 'err' and pasted[0] == 'err':
             dist['errors_both'] += 1
         if not bad and case['kind'] == 'foreign' and split[0] == 'ok':
-            st = [it for it in case['files']['main.less'].split('\n') if it in FOREIGN]
+            st = [it for t in case['files'].values() for it in t.split('\n') if it in FOREIGN]
             for s_ in st:
                 key = re.sub(r'\s+', '', s_.rstrip(';'))
                 if key not in re.sub(r'\s+', '', split[1]):
